@@ -95,12 +95,17 @@ def parse_sched(text):
     return steps
 
 
-_LINE = re.compile(r"\[src \|-> (\d+), stream \|-> \"(\w+)\", cls \|-> \"(\w+)\"\]")
+_LINE = re.compile(r"\[([^\[\]]*\|->[^\[\]]*)\]")
+_FIELD = re.compile(r"(\w+) \|-> \"?(\w+)\"?")
 
 
 def parse_lines(text):
-    return [dict(id=i + 1, src=int(m.group(1)), stream=m.group(2), cls=m.group(3))
-            for i, m in enumerate(_LINE.finditer(text))]
+    out = []
+    for m in _LINE.finditer(text):
+        f = dict(_FIELD.findall(m.group(1)))
+        if {"src", "stream", "cls"} <= set(f):
+            out.append(dict(id=len(out) + 1, src=int(f["src"]), stream=f["stream"], cls=f["cls"]))
+    return out
 
 
 def window_scenarios(ctx, n, start_run):
@@ -354,6 +359,16 @@ def shape_keys(trace):
 
 
 # ---------------------------------------------------------------------------------------------- conformance
+SPLIT = {"Classes": '{"P", "S"}', "Strs": '{"a"}', "KidsPer": "2", "KidBase": "20", "MaxId": "24", "BatchCount": "2"}
+
+
+def _split_ov(has_split, nlines):
+    """model constants for the id space: the harness numbers the children of line e 20+2e-1, 20+2e"""
+    if has_split:
+        return {"MaxId": str(20 + 2 * nlines), "KidsPer": "2", "KidBase": "20"}
+    return {"MaxId": str(nlines)}
+
+
 def conformance(ctx, trace, groups):
     """groups: list of (consts dict, [run numbers]).  Validates that the recorded runs are behaviours of Pipeline.tla
     (specs/PipelineTrace.tla).  Returns (accepted, rejected list).  A rejection is a MODEL-DRIFT warning, never a verdict."""
@@ -371,11 +386,14 @@ def conformance(ctx, trace, groups):
                 out.writelines(runs[r])
                 n += len(runs[r])
         maxid = max(len(json.loads(runs[r][0])["lines"]) for r in rs)
-        ov = {"MaxId": str(maxid), "NProcs": "3", "Capacity": str(cons["Capacity"]), "NWorkers": str(cons["NWorkers"]),
-              "BatchCount": str(cons["BatchCount"]), "Retry": str(cons["Retry"]), "HasDQ": "TRUE" if cons["HasDQ"] else "FALSE"}
+        ov = _split_ov(any(l["cls"] == "S" for r in rs for l in json.loads(runs[r][0])["lines"]), maxid)
+        ov.update({"NProcs": "3", "Capacity": str(cons["Capacity"]), "NWorkers": str(cons["NWorkers"]),
+              "BatchCount": str(cons["BatchCount"]), "Retry": str(cons["Retry"]), "HasDQ": "TRUE" if cons["HasDQ"] else "FALSE"})
         res = ctx.tlc("PipelineTrace", "PipelineTrace.cfg", workers=1, files={f: "trace.ndjson"}, timeout=300, deadlock=False, check=False,
                       overrides=ov, jvm=["-Dtlc2.tool.queue.IStateQueue=StateDeque"], name="PipelineTrace/%s" % tag)
         rep = [p for p in res.printed if isinstance(p, dict) and "reached" in p]
+        if "Parse Error" in res.out or "semantic analysis failed" in res.out or "Semantic errors" in res.out:
+            raise vlib.Infra("PipelineTrace.tla does not parse:\n%s" % res.out[-1500:])
         if not rep:
             return None, n
         return rep[-1]["reached"], n
@@ -412,8 +430,9 @@ def conformance_selftest(ctx, trace, cons, run):
     lines[idx[0]] = json.dumps(e) + "\n"
     f = os.path.join(ctx.scratch, "conf_selftest.ndjson")
     open(f, "w").writelines(lines)
-    ov = {"MaxId": str(len(json.loads(lines[0])["lines"])), "NProcs": "3", "Capacity": str(cons["Capacity"]), "NWorkers": str(cons["NWorkers"]),
-          "BatchCount": str(cons["BatchCount"]), "Retry": str(cons["Retry"]), "HasDQ": "TRUE" if cons["HasDQ"] else "FALSE"}
+    ov = _split_ov(any(l["cls"] == "S" for l in json.loads(lines[0])["lines"]), len(json.loads(lines[0])["lines"]))
+    ov.update({"NProcs": "3", "Capacity": str(cons["Capacity"]), "NWorkers": str(cons["NWorkers"]),
+          "BatchCount": str(cons["BatchCount"]), "Retry": str(cons["Retry"]), "HasDQ": "TRUE" if cons["HasDQ"] else "FALSE"})
     res = ctx.tlc("PipelineTrace", "PipelineTrace.cfg", workers=1, files={f: "trace.ndjson"}, timeout=120, deadlock=False, check=False,
                   overrides=ov, jvm=["-Dtlc2.tool.queue.IStateQueue=StateDeque"], name="PipelineTrace/selftest-corrupted")
     rep = [p for p in res.printed if isinstance(p, dict) and "reached" in p]
